@@ -440,8 +440,22 @@ def extra_C10(rep, ctx):
     tables.c10_tables(rep, ctx.facts)
 
 
+def week_glue(rep, ctx):
+    """stage E1l (sda/weekglue.py): Timestamp / OracleDate week rounding hands the date-level rule the nearest calendar date"""
+    if ctx.cfg in pipeline.ONLY:
+        return
+    d = pipeline.load_json(pipeline.ensure_stage('e1l', ctx.cfg))
+    for r in d['records']:
+        key = f"R-ens|{r['root']}|{r['clause']}"
+        rep.ob(key, r['ok'], f"R-ens {r['root']}: {r['clause']} -- {r['detail'][:300]}", {'weekglue': r, 'config': ctx.cfg}, rule='E1l-week-glue')
+    for t in d['notes']:
+        rep.notes.append(f"[{ctx.cfg}] E1l (undecided, not a violation): {t}")
+    rep.extra.setdefault('week_glue', {})[ctx.cfg] = {'roots': d['roots'], 'calls': d['calls']}
+
+
 def extra_C11(rep, ctx):
     tables.c11_tables(rep, ctx.facts)
+    week_glue(rep, ctx)
 
 
 def prop_tables(pid, fn, explanation):
@@ -514,6 +528,7 @@ def extra_C06(rep, ctx):
     float_forms(rep, ctx, ('C04', 'C05'))
     digit_rendering(rep, ctx)
     meridian_map(rep, ctx)
+    number_text(rep, ctx)
 
 
 def meridian_map(rep, ctx):
@@ -529,9 +544,29 @@ def meridian_map(rep, ctx):
     rep.extra.setdefault('meridian_map', {})[ctx.cfg] = {'cases': d['cases'], 'records': len(d['records'])}
 
 
+def number_text(rep, ctx):
+    """stage E1j (sda/numparse.py): parse_number returns the number its digits denote, with the sign of the prefix"""
+    if ctx.cfg in pipeline.ONLY:
+        return
+    d = pipeline.load_json(pipeline.ensure_stage('e1j', ctx.cfg))
+    n = {'proved': 0, 'refuted': 0, 'undecided': 0}
+    for r in d['records']:
+        key = f"R-ens|format::parse_number|{r['clause']}"
+        if r['ok'] is None:
+            n['undecided'] += 1
+            rep.notes.append(f"[{ctx.cfg}] E1j undecided (not a violation): {r['clause']} -- {r['detail'][:300]}")
+            continue
+        n['proved' if r['ok'] else 'refuted'] += 1
+        rep.ob(key, r['ok'], f"R-ens format::parse_number: {r['clause']} -- {r['detail'][:400]}", {'numparse': r, 'config': ctx.cfg}, rule='E1j-number-text')
+    for t in d['notes']:
+        rep.notes.append(f"[{ctx.cfg}] E1j (undecided, not a violation): {t}")
+    rep.extra.setdefault('number_text', {})[ctx.cfg] = dict(n, exits=d['exits'])
+
+
 def extra_C05(rep, ctx):
     float_forms(rep, ctx, ('C05',))
     meridian_map(rep, ctx)
+    number_text(rep, ctx)
 
 
 def digit_rendering(rep, ctx):
@@ -556,9 +591,24 @@ def digit_rendering(rep, ctx):
 def extra_C04(rep, ctx):
     float_forms(rep, ctx, ('C04',))
     digit_rendering(rep, ctx)
+    blank_pictures(rep, ctx)
+
+
+def blank_pictures(rep, ctx):
+    """stage E1k (sda/lexaccept.py): a picture that is one run of n blanks is accepted for every n"""
+    if ctx.cfg in pipeline.ONLY:
+        return
+    d = pipeline.load_json(pipeline.ensure_stage('e1k', ctx.cfg))
+    for r in d['records']:
+        key = f"R-ens|format::Formatter::try_new::<&str>|{r['clause']}"
+        rep.ob(key, r['ok'], f"R-ens format::Formatter::try_new::<&str>: {r['clause']} -- {r['detail'][:300]}", {'lexaccept': r, 'config': ctx.cfg}, rule='E1k-blank-picture')
+    for t in d['notes']:
+        rep.notes.append(f"[{ctx.cfg}] E1k (undecided, not a violation): {t}")
+    rep.extra.setdefault('blank_pictures', {})[ctx.cfg] = {'exits': d['exits']}
 
 
 def extra_C19(rep, ctx):
+    blank_pictures(rep, ctx)
     t = tables.T(rep, ctx.facts)
     t.scalar(r'format::MAX_FIELDS$', 36, 'largest number of tokens of a picture')
     e1_obligations(rep, ctx, lambda o: o['kind'] == 'R-inv' and 'Field' in o['desc'])
@@ -594,6 +644,7 @@ def extra_C12(rep, ctx):
 def extra_C17(rep, ctx):
     graph.delegation(rep, ctx.facts)
     cmp_constants(rep, ctx, 'C17')
+    week_glue(rep, ctx)
 
 
 def extra_C18(rep, ctx):
